@@ -78,7 +78,9 @@ func main() {
 			return
 		}
 		run.Inc("histories")
-		if string(done) == "completed" {
+		if string(done) == "stalled" || string(done) == "harness-panic" {
+			run.Inc("histories_abandoned")
+		} else if string(done) == "completed" {
 			run.Inc("histories_completed")
 		} else {
 			run.Inc("histories_stopped_at_first_violation")
